@@ -117,6 +117,9 @@ func c18Impl(in []int64) []int64 {
 			}
 		}
 		cs := g.GetMaximalCliques()
+		if len(cs) > 300 { // a graph on <= 9 vertices has at most 27 maximal cliques; keep a wrong answer small enough to judge
+			cs = cs[:300]
+		}
 		for _, c := range cs {
 			sort.Ints(c)
 		}
